@@ -45,6 +45,9 @@ func propC20(g *G, n int) {
 			args := make([]string, len(sig))
 			for k, s := range sig {
 				switch {
+				case strings.HasPrefix(s, "I64:prec"), strings.HasPrefix(s, "I64:width"):
+					// the property bounds precisions and widths by 100000 (beyond that the formatter may exhaust memory)
+					args[k] = sI64([]int64{-1, 0, 1, 34, 35, 99999, 100000, int64(g.pick(100001)), -int64(g.pick(100001))}[g.pick(9)])
 				case strings.HasPrefix(s, "I64:"):
 					args[k] = sI64(g.extremeInt())
 				case strings.HasPrefix(s, "S_Decimal:"):
